@@ -65,10 +65,22 @@ type Params struct {
 	Special string
 	// Mul is Backoff.Multiplier (0: default).
 	Mul float64
+	// Deadline > 0: the request context expires after that much virtual time (ns) - between, at, or after the
+	// retry instants 1 ms, 2.5 ms, ...
+	Deadline int64
+	// Calls > 1: Connect is called that many times on the same Connection; every call is judged on its own.
+	Calls int
 }
 
 func (p Params) Name() string {
-	return fmt.Sprintf("retries%d-reject%v-chunk%d-bodies%d..%d-canceller%v%s-mul%v", p.MaxRetries, p.Reject, p.Chunk, p.Lo, p.Hi, p.Canceller, p.Special, p.Mul)
+	extra := ""
+	if p.Deadline > 0 {
+		extra += fmt.Sprintf("-deadline%dus", p.Deadline/1000)
+	}
+	if p.Calls > 1 {
+		extra += fmt.Sprintf("-calls%d", p.Calls)
+	}
+	return fmt.Sprintf("retries%d-reject%v-chunk%d-bodies%d..%d-canceller%v%s-mul%v%s", p.MaxRetries, p.Reject, p.Chunk, p.Lo, p.Hi, p.Canceller, p.Special, p.Mul, extra)
 }
 
 type world struct {
@@ -79,6 +91,11 @@ type world struct {
 	End    string
 	Events int
 	ValErr error
+	// per Connect call (Calls > 1): error and number of attempts made during it
+	CallErrs     []error
+	CallAttempts []int
+	// the request context's error at the moment Connect returned (a deadline may still pass afterwards)
+	CtxErrAtReturn error
 }
 
 var errValidator = errors.New("scripted validator rejection")
@@ -88,10 +105,13 @@ func body(p Params) func() {
 		w := &world{}
 		vrt.SetUser(w)
 		ctx := vrt.NewCtx("req")
+		if p.Deadline > 0 {
+			ctx.ExpireAfter(p.Deadline)
+		}
 		first := true
 		var chosen ch.Outcome
 		w.T = &ch.Transport{Ctx: ctx, Live: p.Canceller, Next: func(n int) (ch.Outcome, bool) {
-			if n > p.MaxRetries+3 {
+			if n > (p.MaxRetries+3)*max(p.Calls, 1) && (p.Deadline == 0 || n > 12) {
 				return ch.Outcome{}, false // runaway guard: the oracle will complain about the attempt count
 			}
 			switch p.Special {
@@ -137,6 +157,13 @@ func body(p Params) func() {
 			canc = vrt.GoNamed("canceller", func() { ctx.Cancel() })
 		}
 		w.Err = conn.Connect()
+		w.CtxErrAtReturn = ctx.PeekErr()
+		w.CallErrs, w.CallAttempts = append(w.CallErrs, w.Err), append(w.CallAttempts, len(w.T.Attempts))
+		for k := 1; k < p.Calls; k++ {
+			before := len(w.T.Attempts)
+			w.Err = conn.Connect()
+			w.CallErrs, w.CallAttempts = append(w.CallErrs, w.Err), append(w.CallAttempts, len(w.T.Attempts)-before)
+		}
 		w.Done = true
 		vrt.Join(canc)
 	}
@@ -157,6 +184,17 @@ func check(p Params) func(r *vrt.Result) string {
 		if w.Err == nil {
 			return "Connect returned nil: " + desc
 		}
+		if cerr := w.CtxErrAtReturn; cerr != nil && p.Deadline > 0 {
+			// The deadline may pass while the last permitted attempt is failing for a reason of its own: then the
+			// retry budget is exhausted and the context is done at the same time, and either report is right.
+			budget := 1 + max(p.MaxRetries, 0)
+			var ce *sse.ConnectionError
+			exhausted := p.Special == "fail-plain" && p.MaxRetries != 0 && len(w.T.Attempts) == budget && errors.As(w.Err, &ce)
+			if !errors.Is(w.Err, cerr) && !exhausted {
+				return fmt.Sprintf("the request context's deadline passed but Connect returned %v instead of the context's error: %s", w.Err, desc)
+			}
+			return ""
+		}
 		// a connection that was established and then ended resets the retry count: with MaxRetries > 0 such
 		// connections are retried for as long as the script lasts (the harness ends it by cancelling)
 		endless := p.MaxRetries > 0 && !p.Reject && !p.Canceller && w.End != "cancel" && (p.Special == "" || p.Special == "toolong-hang")
@@ -169,7 +207,24 @@ func check(p Params) func(r *vrt.Result) string {
 			}
 			return ""
 		}
-		if w.T.Ctx.Cancelled() {
+		if p.Calls > 1 {
+			// every call on its own: the retry budget and the schedule start afresh
+			want := 1
+			if p.MaxRetries > 0 {
+				want = 1 + p.MaxRetries
+			}
+			for k, e := range w.CallErrs {
+				var ce *sse.ConnectionError
+				if e == nil || !errors.As(e, &ce) {
+					return fmt.Sprintf("Connect call #%d on the same Connection returned %v, want a *ConnectionError: %s", k+1, e, desc)
+				}
+				if w.CallAttempts[k] != want {
+					return fmt.Sprintf("Connect call #%d on the same Connection made %d attempts, want %d (every call retries according to the backoff policy): attempts per call %v: %s", k+1, w.CallAttempts[k], want, w.CallAttempts, desc)
+				}
+			}
+			return ""
+		}
+		if w.T.Ctx.Cancelled() && (p.Deadline == 0 || w.CtxErrAtReturn != nil) {
 			if !errors.Is(w.Err, context.Canceled) {
 				what := "was cancelled"
 				if midLine(w.Body) {
@@ -335,6 +390,23 @@ func Scenarios(tier string) []run.Scenario {
 			add(Params{MaxRetries: mr, Special: "toolong-hang", Mul: mul})
 		}
 	}
+	// a request context with a deadline between, at and after the retry instants (1 ms, 2.5 ms, 4.75 ms)
+	for _, mr := range []int{0, 1, 2, 3} {
+		for _, dl := range []int64{500, 1000, 2000, 2500, 3000, 6000, 50000} {
+			for _, sp := range []string{"fail-plain", "toolong-hang"} {
+				if sp == "toolong-hang" && dl > 6000 {
+					continue // every attempt connects, so the retry count starts over each time: bounded only by the deadline
+				}
+				add(Params{MaxRetries: mr, Special: sp, Deadline: dl * 1000})
+			}
+		}
+	}
+	// Connect called again and again on one Connection
+	for _, mr := range []int{-1, 1, 2} {
+		for _, mul := range []float64{0, 1} {
+			add(Params{MaxRetries: mr, Special: "fail-plain", Mul: mul, Calls: 3})
+		}
+	}
 	// a constant interval (Multiplier 1): successful connections still reset the retry count
 	for _, mr := range []int{1, 2} {
 		add(Params{MaxRetries: mr, Chunk: 0, Bodies: bodies, Lo: 0, Hi: 64, Ends: []string{"eof", "err"}, Mul: 1})
@@ -352,7 +424,7 @@ func Scenarios(tier string) []run.Scenario {
 
 var Check = &run.Check{
 	ID: "C11", Level: "model_checking",
-	Rule: "Scenarios: the real Connect loop on the virtual clock; the response body is every distinct prefix (cut after any byte) of every string of <= 4 (thorough 5) tokens over {LF, data:x, :c, foo, id:a, retry:1, d}, ending with a clean EOF, a read error, or a cancellation of the request context at that read; delivered whole or byte at a time; MaxRetries -1 / 1 / 2; validator accepting or rejecting; plus a second thread that cancels at every possible moment (before the attempt, between any two reads, while Connect waits for its retry timer - all interleavings), plus the same bodies through sse.Read. Body and ending are explorer choices inside each scenario.",
+	Rule: "Scenarios: the real Connect loop on the virtual clock; the response body is every distinct prefix (cut after any byte) of every string of <= 4 (thorough 5) tokens over {LF, data:x, :c, foo, id:a, retry:1, d}, ending with a clean EOF, a read error, or a cancellation of the request context at that read; delivered whole or byte at a time; MaxRetries -1 / 1 / 2; validator accepting or rejecting; plus a second thread that cancels at every possible moment (before the attempt, between any two reads, while Connect waits for its retry timer - all interleavings), plus request contexts whose deadline falls between, at or after the retry instants; plus three Connect calls on one Connection (each must retry afresh); plus the same bodies through sse.Read. Body and ending are explorer choices inside each scenario.",
 	Assumptions: []string{
 		"a cancelled request makes the response body fail with the context's error (net/http's documented behaviour), reproduced by the harness body",
 	},
